@@ -164,6 +164,7 @@ type walker struct {
 	vals   map[ssa.Value]int
 	events []string
 	onCall func(w *walker, call *ssa.Call)
+	onStore func(w *walker, st *ssa.Store)
 }
 
 func (w *walker) eval(v ssa.Value, d int) int {
@@ -216,6 +217,10 @@ func (w *walker) run(fn *ssa.Function) (*ssa.Return, ssa.Instruction) {
 			case *ssa.Call:
 				if w.onCall != nil {
 					w.onCall(w, x)
+				}
+			case *ssa.Store:
+				if w.onStore != nil {
+					w.onStore(w, x)
 				}
 			case *ssa.If:
 				r := w.eval(x.Cond, 0)
